@@ -59,7 +59,8 @@ def fill_model(sP, sQ, ro, s):
         if ro:
             # only the position size is filled: fee on |P * p|
             return "oversize-reduce-only", Wt - P * p * f + sp * (p - E), num(0), None, ["close_trade"]
-        return "flip", wallet + sp * (p - E), sp + sq, p, ["close_trade", "open_trade"]
+        # an order that flips the position: the old trade is closed (and reported), the rest of the order is the entry of the new one
+        return "flip", wallet + sp * (p - E), sp + sq, p, ["close_trade", "entry_of_next_trade", "open_trade"]
     return "reduce", wallet - sq * (p - E), sp + sq, E, []
 
 
@@ -77,6 +78,7 @@ def build_fill_world(repo, it: Interp, sP, sQ, ro, typ):
     trades = Obj("ClosedTrades", name="store.completed_trades", attrs={})
     W.bind(trades, "open_trade", lambda i, a, k: i.event("trade", "open_trade"))
     W.bind(trades, "close_trade", lambda i, a, k: i.event("trade", "close_trade"))
+    W.bind(trades, "add_order_record_only", lambda i, a, k: i.event("trade", "entry_of_next_trade", a[3]))
     it.overrides[f"{W.STORE}:store"] = Obj("StoreClass", name="store", attrs={"completed_trades": trades}, open_world=True)
     side = W.enum_value(repo, "sides", "BUY" if sQ > 0 else "SELL")
     o = W.make_order(repo, "O", side, W.enum_value(repo, "order_types", typ), R.const(sQ) * A("Q"), A("p"),
@@ -128,7 +130,14 @@ def check_fills(repo, rep):
                         if tr != tr_exp:
                             probs.append(f"trade bookkeeping {tr} != {tr_exp}")
                         hooks = [i for i, e in enumerate(out.events) if e[0] == "strategy_hook"]
-                        if len(hooks) != 1:
+                        if cell == "flip":
+                            # two events: the close (the strategy sees size 0) and the opening of the opposite position
+                            seen = [out.events[i][1] for i in hooks]
+                            if len(hooks) != 2 or not (isinstance(seen[0], R) and seen[0].same(num(0))) or not (isinstance(seen[1], R) and seen[1].same(p_exp)):
+                                probs.append(f"a flip must be reported as a close (size 0) followed by an open (size {p_exp!r}); the strategy was notified with sizes {seen}")
+                            elif any(e[0] in ("trade",) or (e[0] == "store" and e[1] in ("position", "exchange")) for e in out.events[hooks[1] + 1:]):
+                                probs.append("strategy notified before the position was fully updated")
+                        elif len(hooks) != 1:
                             probs.append(f"strategy notified {len(hooks)} times")
                         elif any(e[0] in ("trade",) or (e[0] == "store" and e[1] in ("position", "exchange")) for e in out.events[hooks[0] + 1:]):
                             probs.append("strategy notified before the position was fully updated")
